@@ -353,8 +353,17 @@ fn cuts(r: &mut Rng, len: usize, max_parts: usize) -> Vec<usize> {
 
 /// Build one scripted connection of the given kind.  `base` = virtual time of its first frame.
 pub fn gen_conn(r: &mut Rng, id: u64, kind: Kind, base: u64) -> Conn {
+    gen_conn_ep(r, id, kind, base, None)
+}
+
+/// Like `gen_conn`, with the endpoints chosen by the caller (e.g. several connections between the
+/// same two hosts).
+pub fn gen_conn_ep(r: &mut Rng, id: u64, kind: Kind, base: u64, ep: Option<Endpoints>) -> Conn {
     let v6 = r.chance(1, 5);
-    let ep = ep_for(r, id, v6);
+    let ep = match ep {
+        Some(e) => e,
+        None => ep_for(r, id, v6),
+    };
     let link = if r.chance(1, 6) { Link::RawIp } else { Link::Ethernet };
     let mut s = Script::new(ep.clone(), link, r.u32(), r.u32());
     let tsc = r.u32();
@@ -370,7 +379,15 @@ pub fn gen_conn(r: &mut Rng, id: u64, kind: Kind, base: u64) -> Conn {
         o.extend(pkt::opt_ws(7));
         o
     };
-    s.syn(syn_opts(1460, tsc));
+    if matches!(kind, Kind::Http1 | Kind::Http2) && r.chance(1, 10) {
+        // opened by a SYN carrying FIN / RST / URG / PSH as well: the TCP analyzer rejects the
+        // invalid combinations, the HTTP analyzer still tracks the connection
+        let extra = *r.pick(&[flags::FIN, flags::RST, flags::URG, flags::PSH, flags::FIN | flags::PSH]);
+        let f = s.seg(true, s.c_isn, 0, flags::SYN | extra, syn_opts(1460, tsc), &[]);
+        s.frames.push(f);
+    } else {
+        s.syn(syn_opts(1460, tsc));
+    }
     s.syn_ack(syn_opts(1440, tss));
     s.ack();
     match kind {
